@@ -12,6 +12,7 @@ import CpProofs.Ssh.Variant
 import CpProofs.Ssh.NoCrash
 import CpProofs.Ssh.Banner
 import CpProofs.Ssh.BannerRT
+import CpProofs.Ssh.BannerSD
 import CpModel.Ssh.Banner
 import CpModel.Ssh.Cert
 /-
@@ -31,6 +32,7 @@ import CpModel.Ssh.Cert
     Ssh/NoCrash      which SSH parsers can only fail with the four documented parse errors
     Ssh/Banner       the identification string: consumed length, no crash, composed form
     Ssh/BannerRT     the identification string: round trip
+    Ssh/BannerSD     the identification string: self-delimitation, prefixes
 -/
 namespace Cp.Ssh
 open Cp
